@@ -31,14 +31,42 @@ theorem dyn_eq_fixed [DecidableEq α] [Inhabited α] (fuel k : Nat) (hist : List
     (hno : pred (callRows mode rule r init s k) (k + 1) = false)
     (hfuel : k < fuel) :
     evolveDynamic fuel hist pred rule r mode s = some (evolveFixed hist (k + 1) rule r mode s) := by
-  sorry
+  unfold evolveDynamic evolveFixed
+  rw [hlast]
+  simp only
+  by_cases hb : 1 ≤ k ∧ mode = .bad
+  · obtain ⟨hk, hm⟩ := hb
+    obtain ⟨f, rfl⟩ : ∃ f, fuel = f + 1 := ⟨fuel - 1, by omega⟩
+    have h0 : pred [init] 1 = true := by simpa [callRows, fixedLoop] using hyes 0 (by omega)
+    have hk2 : k + 1 ≥ 2 := by omega
+    simp [dynLoop, h0, hm, hk2]
+  · have hm : k = 0 ∨ mode ≠ .bad := by
+      by_cases h : k = 0
+      · exact Or.inl h
+      · exact Or.inr (fun hm => hb ⟨by omega, hm⟩)
+    have hyes' : ∀ i, i < k →
+        pred ([init] ++ (fixedLoop mode rule r i 1 init Caches.empty s).1) (1 + i) = true := by
+      intro i hi
+      have := hyes i hi
+      simpa [callRows, Nat.add_comm 1 i] using this
+    have hno' : pred ([init] ++ (fixedLoop mode rule r k 1 init Caches.empty s).1) (1 + k)
+        = false := by
+      simpa [callRows, Nat.add_comm 1 k] using hno
+    rw [dynLoop_eq_fixedLoop mode rule r pred k fuel 1 [init] init Caches.empty s hm hfuel
+      hyes' hno']
+    simp only [Nat.add_sub_cancel]
+    have hcond : ¬ (k + 1 ≥ 2 ∧ mode = .bad) := fun h => hb ⟨by omega, h.2⟩
+    rw [if_neg (by omega), if_neg hcond]
+    simp
 
 /-- **Declining at once returns the given history unchanged** (and consults the rule not at all). -/
 theorem dyn_zero_step [DecidableEq α] [Inhabited α] (fuel : Nat) (hist : List (List α)) (init : List α)
     (hlast : hist.getLast? = some init) (pred : List (List α) → Nat → Bool) (rule : Rule1 σ α) (r : Nat)
     (mode : Mode) (s : σ) (hno : pred [init] 1 = false) :
     evolveDynamic (fuel + 1) hist pred rule r mode s = some (.ok (hist, s)) := by
-  sorry
+  unfold evolveDynamic
+  rw [hlast]
+  simp [dynLoop, hno]
 
 /-- A step is performed *only* when the predicate says yes: if the run ends normally with `k` new rows,
     the predicate was true at `t = 1..k` on the rows so far and false at `t = k+1`. -/
@@ -50,7 +78,28 @@ theorem dyn_result_gated [DecidableEq α] [Inhabited α] (fuel : Nat) (hist : Li
       (∀ i, i < k → pred (callRows mode rule r init s i) (i + 1) = true) ∧
       pred (callRows mode rule r init s k) (k + 1) = false ∧
       out = hist ++ (callRows mode rule r init s k).drop 1 := by
-  sorry
+  unfold evolveDynamic at h
+  rw [hlast] at h
+  simp only at h
+  cases hd : dynLoop mode rule r pred fuel 1 [init] init Caches.empty s with
+  | none => simp [hd] at h
+  | some res =>
+    cases res with
+    | error e => simp [hd] at h
+    | ok p =>
+      obtain ⟨acc, s''⟩ := p
+      simp only [hd, Option.some.injEq, Except.ok.injEq, Prod.mk.injEq] at h
+      obtain ⟨m, hyes, hno, hres, _⟩ := dynLoop_ok_inv mode rule r pred fuel 1 [init] init
+        Caches.empty s acc s'' hd
+      refine ⟨m, ?_, ?_, ?_, ?_⟩
+      · rw [← h.1, hres]
+        simp [fixedLoop_length]
+      · intro i hi
+        have := hyes i hi
+        simpa [callRows, Nat.add_comm 1 i] using this
+      · simpa [callRows, Nat.add_comm 1 m] using hno
+      · rw [← h.1, hres]
+        simp [callRows]
 
 /-- **until_fixed_point stops exactly at the first step that leaves the state unchanged**:
     if row `k` (k ≥ 1) of this call is the first one equal to its predecessor, the run is the
@@ -63,7 +112,24 @@ theorem untilFixedPoint_stops_at_first [DecidableEq α] [Inhabited α] (fuel k :
     (hfix : (callRows mode rule r init s k)[k]? = (callRows mode rule r init s k)[k - 1]?)
     (hfuel : k < fuel) :
     evolveDynamic fuel hist untilFixedPoint rule r mode s = some (evolveFixed hist (k + 1) rule r mode s) := by
-  sorry
+  have hlen : (callRows mode rule r init s k).length = k + 1 := by
+    simp [callRows, fixedLoop_length]
+  have hpre : ∀ i, i ≤ k →
+      callRows mode rule r init s i = (callRows mode rule r init s k).take (i + 1) := by
+    intro i hi
+    simp only [callRows, List.take_succ_cons]
+    rw [fixedLoop_take mode rule r i k 1 init Caches.empty s hi]
+  apply dyn_eq_fixed fuel k hist init hlast untilFixedPoint rule r mode s _ _ hfuel
+  · intro i hi
+    rw [hpre i (by omega), untilFixedPoint_take _ _ _ (by omega)]
+    by_cases h1 : 1 ≤ i
+    · have := hfirst i h1 hi
+      simp only [h1, if_true, Bool.not_eq_true', decide_eq_false_iff_not]
+      exact fun h => this h.symm
+    · simp [h1]
+  · rw [hpre k (by omega), untilFixedPoint_take _ _ _ (by omega)]
+    simp only [hk, if_true, Bool.not_eq_false', decide_eq_true_eq]
+    exact hfix.symm
 
 /-- Conversely, whenever the run with `until_fixed_point` ends normally, at least one step was taken,
     the last two rows of this call are equal and no earlier pair of consecutive rows is. -/
@@ -74,7 +140,37 @@ theorem untilFixedPoint_spec [DecidableEq α] [Inhabited α] (fuel : Nat) (hist 
     ∃ new, out = hist ++ new ∧ 1 ≤ new.length ∧
       (init :: new)[new.length]? = (init :: new)[new.length - 1]? ∧
       ∀ i, 1 ≤ i → i < new.length → (init :: new)[i]? ≠ (init :: new)[i - 1]? := by
-  sorry
+  obtain ⟨k, hlen, hyes, hno, hout⟩ :=
+    dyn_result_gated fuel hist init hlast untilFixedPoint rule r mode s s' out h
+  have hclen : (callRows mode rule r init s k).length = k + 1 := by
+    simp [callRows, fixedLoop_length]
+  have hpre : ∀ i, i ≤ k →
+      callRows mode rule r init s i = (callRows mode rule r init s k).take (i + 1) := by
+    intro i hi
+    simp only [callRows, List.take_succ_cons]
+    rw [fixedLoop_take mode rule r i k 1 init Caches.empty s hi]
+  have hnewlen : (fixedLoop mode rule r k 1 init Caches.empty s).1.length = k :=
+    fixedLoop_length mode rule r k 1 init Caches.empty s
+  have hcr : init :: (fixedLoop mode rule r k 1 init Caches.empty s).1
+      = callRows mode rule r init s k := rfl
+  rw [hpre k (by omega), untilFixedPoint_take _ _ _ (by omega)] at hno
+  have hk : 1 ≤ k := by
+    by_cases hk : 1 ≤ k
+    · exact hk
+    · simp [hk] at hno
+  refine ⟨(fixedLoop mode rule r k 1 init Caches.empty s).1, ?_, ?_, ?_, ?_⟩
+  · rw [hout]; simp [callRows]
+  · omega
+  · rw [hnewlen, hcr]
+    simp only [hk, if_true, Bool.not_eq_false', decide_eq_true_eq] at hno
+    exact hno.symm
+  · intro i h1 hi
+    rw [hnewlen] at hi
+    rw [hcr]
+    have := hyes i hi
+    rw [hpre i (by omega), untilFixedPoint_take _ _ _ (by omega)] at this
+    simp only [h1, if_true, Bool.not_eq_true', decide_eq_false_iff_not] at this
+    exact fun h => this h.symm
 
 /-! ## Non-vacuity -/
 example : untilFixedPoint [[1, 0], [1, 0]] 2 = false := by decide
